@@ -105,7 +105,7 @@ func c02diff(path string, a, b reflect.Value) string {
 }
 
 func TestZZBoundedC02(t *testing.T) {
-	fmt.Println("BOUNDED-BOUND: 153 statements (every statement family, every option of SELECT / SHOW / CREATE / ALTER, names needing quotes and escapes, keywords as names, extreme numbers and durations, negated operands, regexes with slashes, nested subqueries): parse, print, re-parse, structural comparison")
+	fmt.Println("BOUNDED-BOUND: 161 statements (every statement family, every option of SELECT / SHOW / CREATE / ALTER, names needing quotes and escapes, keywords as names, extreme numbers and durations, negated operands, regexes with slashes, nested subqueries): parse, print, re-parse, structural comparison")
 	corpus := []string{
 		`SELECT mean(value) FROM cpu WHERE host = 'a' AND time > now() - 1h GROUP BY time(5m), host fill(none) ORDER BY time DESC LIMIT 5 OFFSET 2 SLIMIT 3 SOFFSET 1 tz('UTC')`,
 		`SELECT mean(value) FROM cpu GROUP BY time(5m, 1m) fill(0)`,
@@ -138,6 +138,10 @@ func TestZZBoundedC02(t *testing.T) {
 		`SELECT value AS value, mean(value) AS mean, a + b AS a_b, "FROM" AS "SELECT", "Limit", "TRUE", "Database" FROM cpu`,
 		`SELECT "FROM" FROM "Select"."Where"."Group" WHERE "AND" = 'x' GROUP BY "Time", "BY"`,
 		`SELECT value FROM cpu WHERE host =~ /a\\\/b/ AND path !~ /\/x\\y/`,
+		`SELECT ((value)), (((a + b))) * c FROM cpu WHERE ((host = 'a')) AND (((x)) > 1)`,
+		`SHOW SERIES CARDINALITY OFFSET 3`, `SHOW MEASUREMENT CARDINALITY ON db OFFSET 2`, `SHOW TAG KEY CARDINALITY OFFSET 1`,
+		`SHOW FIELD KEY CARDINALITY LIMIT 4`, `SHOW TAG VALUES CARDINALITY WITH KEY = host OFFSET 5`, `SHOW SERIES EXACT CARDINALITY ON db FROM cpu GROUP BY host LIMIT 2 OFFSET 7`,
+		"SELECT \"a\tb\", \"c\u00e9d\", \"e\x01f\" FROM \"m\tn\" WHERE s = 'x\ty\u2028z'",
 		`SELECT value FROM cpu ORDER BY ASC`,
 		`SELECT value FROM cpu ORDER BY ASC LIMIT 5`,
 		`SHOW SERIES ORDER BY ASC LIMIT 2`,
